@@ -93,6 +93,27 @@ def main():
             viol_lines.append('VIOLATION property=%s replay=%s' % (pid, rep.get('path', '-')))
             print('  obligation=%s claim=%s site=%s model=%s' % (r['name'], v['claim'], v['site'],
                                                                json.dumps(v['model'])[:600]))
+    # encoder validation: witness models replayed on the real code must take the same kind of path
+    from . import tojson
+    for r in results:
+        for w in r.get('witness_replays', []):
+            try:
+                tojson.set_string_names({int(k_): s_ for k_, s_ in w.get('strings', {}).items()})
+                scn = tojson.instantiate(w['scenario_t'], w['model'])
+                out = replay.run_scenario(scn)
+            except Exception as e:   # noqa
+                print('ENCODER-VALIDATION obligation=%s witness=%s: scenario could not be built (%r)' % (r['name'], w['label'], e))
+                exit_code = max(exit_code, 2)
+                continue
+            nrep += 1
+            res = out.get('result', {}) if isinstance(out, dict) else {}
+            got = 'ok' if 'ok' in res else 'err'
+            if 'error' in out:
+                print('ENCODER-VALIDATION obligation=%s witness=%s: runner error %s' % (r['name'], w['label'], str(out['error'])[:200]))
+                exit_code = max(exit_code, 2)
+            elif got != w['expect']:
+                print('ENCODER-MISMATCH obligation=%s witness=%s: SMIR path is %s, the real code returns %s' % (r['name'], w['label'], w['expect'], str(res)[:200]))
+                exit_code = max(exit_code, 2)
     for k in kn:
         if k['key'] in known_hit:
             print('KNOWN-FINDING: property=%s %s' % (pid, k['what']))
